@@ -20,30 +20,47 @@ type BuildInfo struct {
 
 // Replay is the on-disk replay file.
 type Replay struct {
-	Property    string              `json:"property"`
-	Phase       string              `json:"phase"`
-	Class       string              `json:"class"`
-	Key         string              `json:"key"`
-	Detail      string              `json:"detail"`
-	BaseSeed    uint64              `json:"seed"`
-	RunSeed     uint64              `json:"run_seed"`
-	RunIndex    uint64              `json:"run_index"`
-	Tier        string              `json:"tier"`
-	Build       BuildInfo           `json:"build"`
-	RefVariant  string              `json:"reference_variant,omitempty"` // differential replays: the other build
-	Tape        map[string][]uint32 `json:"tape"`
-	Trace       []string            `json:"trace"`
-	RepoTree    string              `json:"repo_tree,omitempty"`
-	Minimised   bool                `json:"minimised"`
-	ShrinkExecs int                 `json:"shrink_execs"`
-	TapeLenOrig int                 `json:"tape_len_before_shrink"`
-	TapeLen     int                 `json:"tape_len"`
+	Property   string    `json:"property"`
+	Phase      string    `json:"phase"`
+	Class      string    `json:"class"`
+	Key        string    `json:"key"`
+	Detail     string    `json:"detail"`
+	BaseSeed   uint64    `json:"seed"`
+	RunSeed    uint64    `json:"run_seed"`
+	RunIndex   uint64    `json:"run_index"`
+	Tier       string    `json:"tier"`
+	Build      BuildInfo `json:"build"`
+	RefVariant string    `json:"reference_variant,omitempty"` // differential replays: the other build
+	// History-dependent violations (the library keeps state between independent calls):
+	// the failing run only fails after the runs its worker process executed before it.
+	// With NeedsPrefix the replay first re-executes those runs (seed fan-out is a pure
+	// function of the base seed and the indices) and then the recorded tape TapeOrig.
+	NeedsPrefix  bool                `json:"needs_process_history,omitempty"`
+	PrefixStart  uint64              `json:"history_first_index"`
+	PrefixStride uint64              `json:"history_stride"`
+	PrefixCount  uint64              `json:"history_runs_before"`
+	TapeOrig     map[string][]uint32 `json:"tape_as_recorded,omitempty"`
+	Tape         map[string][]uint32 `json:"tape"`
+	Trace        []string            `json:"trace"`
+	RepoTree     string              `json:"repo_tree,omitempty"`
+	Minimised    bool                `json:"minimised"`
+	ShrinkExecs  int                 `json:"shrink_execs"`
+	TapeLenOrig  int                 `json:"tape_len_before_shrink"`
+	TapeLen      int                 `json:"tape_len"`
 }
 
 func (rp *Replay) Rec() Rec {
 	var rec Rec
 	for i, n := range StreamNames {
 		rec[i] = rp.Tape[n]
+	}
+	return rec
+}
+
+func (rp *Replay) OrigRec() Rec {
+	var rec Rec
+	for i, n := range StreamNames {
+		rec[i] = rp.TapeOrig[n]
 	}
 	return rec
 }
